@@ -894,6 +894,9 @@ func runLifeCase(c cfg, seed uint64, o lifeOpts, keys map[string]struct{}) (eval
 	trigger()
 	stopErrCh := make(chan error, 1)
 	var extra []net.Conn
+	if backlogPeer != nil {
+		extra, backlogPeer = append(extra, backlogPeer), nil // closed with the other peers, before the descriptor table is compared
+	}
 	t0 := time.Now()
 	switch o.shutdownFrom {
 	case "accept-error":
